@@ -132,6 +132,13 @@ def layered_signature(world, model):
 def compare_with_model(v, world, rc, dump, res, read_index, oracle_prefix="m5"):
     """shared with C12: compares one successful/failed layered read with M5, recognising D7."""
     model = gen.model_of(world)
+    if model["nofile"] and model.get("seen"):
+        # nothing but sub-directories that carry the suffix: whether that counts as "no file at all" (file-not-found)
+        # or as entries that contribute nothing (success, empty configuration) is not fixed by the statement
+        if rc == 3 or (rc == 0 and not dump_to_conf(dump)[0].entries):
+            return model
+        v.fail(oracle_prefix + ":nofile", "only sub-directories carry the suffix, but the read returned %r with content" % rc)
+        return model
     if model["nofile"]:
         if rc != 3:
             v.fail(oracle_prefix + ":nofile", "no file exists in any layer but the read returned %r instead of file-not-found" % rc)
